@@ -238,6 +238,13 @@ func init() {
 					out = append(out, Inst{Pkg: "knxnet", Fn: "HarnessC01Unpack", Args: []int64{0x0202, L, g, 0}, Unwind: int(L) + 12})
 				}
 			}
+			if g == 0 {
+				// receiver clause: a malformed datagram/frame does not prevent later well-formed ones
+				for _, L := range []int64{1, 6, 8, 10, 12} {
+					out = append(out, Inst{Pkg: "knxnet", Fn: "HarnessC16UDP", Args: []int64{1, 3, L}, NoNative: true, Note: "UDP receiver: arbitrary datagram first"})
+				}
+				out = append(out, Inst{Pkg: "knxnet", Fn: "HarnessC16TCPBad", Args: []int64{0, 1}, NoNative: true}, Inst{Pkg: "knxnet", Fn: "HarnessC16TCPBad", Args: []int64{1, 1}, NoNative: true})
+			}
 			codes := []int64{0x2B, 0x11, 0x29, 0x2E, 0x10, 0x2D, 0x2F, 0x77, -1}
 			for _, code := range codes {
 				for L := int64(0); L <= maxL; L++ {
@@ -253,7 +260,7 @@ func init() {
 		Thorough: func(l *loaded) []Inst { return c01(64, 15) },
 		Covers:   []string{"C01.accepted", "C01.rejected"},
 		Bounds:   "knxnet.Unpack under each of the 15 service identifiers, an unknown identifier and a fully symbolic header, cemi.Unpack under the 7 message codes, another code and a symbolic code; every datagram length 0..20 (quick) / 0..64 (thorough), every byte symbolic; each decoded from an exact-capacity slice (G=0) and as a prefix of a buffer with 32 symbolic garbage bytes behind it; description responses: fully symbolic up to 13 (15) bytes, beyond that case-split on the first DIB type (device information up to 63 bytes, others two bytes further); search responses additionally at 66..78 bytes",
-		Outside:  "datagrams longer than the stated lengths (up to 1024); sequences of more than ~5 small description blocks; the socket receivers (see C16)",
+		Outside:  "datagrams longer than the stated lengths (up to 1024); sequences of more than ~5 small description blocks; receiver runs longer than two datagrams/frames (see C16)",
 		Assume:   []string{"obligations: no panic, loop bound length+12 never reached (termination), accepted => consumed <= length, no read of a byte at or beyond the datagram length (engine region check; natively confirmed by re-running with different garbage)"},
 	})
 
@@ -691,6 +698,10 @@ func init() {
 		for _, L := range []int64{1, 6, 8, 10, 12} {
 			out = append(out, Inst{Pkg: "knxnet", Fn: "HarnessC16UDP", Args: []int64{1, 3, L}, Note: "arbitrary datagram first, buffer reused"})
 		}
+		out = append(out, Inst{Pkg: "knxnet", Fn: "HarnessC16ConcurrentSend", Args: []int64{2}, Note: "two concurrent senders, every interleaving around Write"})
+		if thorough {
+			out = append(out, Inst{Pkg: "knxnet", Fn: "HarnessC16ConcurrentSend", Args: []int64{3}, Ctx: 3})
+		}
 		for tcp := int64(0); tcp < 2; tcp++ {
 			for loc := int64(0); loc < 2; loc++ {
 				for nw := int64(0); nw < 3; nw++ {
@@ -705,15 +716,19 @@ func init() {
 		NoNative: true,
 		Quick:    func(l *loaded) []Inst { return c16(false) },
 		Thorough: func(l *loaded) []Inst { return c16(true) },
-		Covers:   []string{"C16.tcp.end", "C16.tcpbad.end", "C16.udp.end", "C16.hostinfo.nat", "C16.hostinfo.local"},
-		Bounds:   "real serveTCPSocket (with the real bufio.Reader and io.ReadFull) on streams of 1..2 (thorough 3) concatenated frames of four service types with symbolic field values, the Read stub returning: every placement of up to 2 (3) cut points, 1-byte dribble, or everything at once, then EOF; a frame with arbitrary body followed by a good one; a header announcing total length 0..5 (symbolic); real serveUDPSocket on 1..2 (3) datagrams, optionally preceded by an arbitrary symbolic datagram of 1..12 bytes into the reused 1024-byte buffer; Tunnel.hostInfo through requestConn for UDP/TCP/other sockets with and without SendLocalAddress",
-		Outside:  "50-frame streams (the receiver keeps no state between frames other than bufio's buffer); more than 3 cut points at once; concurrent senders (Send builds a private buffer and performs one Write: C15); Close racing with a blocked 'inbound <-' (the receiver goroutine then stays blocked until the application reads: not decided here); kernel sockets, Dial*/Listen*, address parsing inside HostInfoFromAddress (redirected to an environment function)",
+		Covers:   []string{"C16.tcp.end", "C16.tcpbad.end", "C16.udp.end", "C16.hostinfo.nat", "C16.hostinfo.local", "C16.send.concurrent.end"},
+		Bounds:   "real serveTCPSocket (with the real bufio.Reader and io.ReadFull) on streams of 1..2 (thorough 3) concatenated frames of four service types with symbolic field values, the Read stub returning: every placement of up to 2 (3) cut points, 1-byte dribble, or everything at once, then EOF; a frame with arbitrary body followed by a good one; a header announcing total length 0..5 (symbolic); real serveUDPSocket on 1..2 (3) datagrams, optionally preceded by an arbitrary symbolic datagram of 1..12 bytes into the reused 1024-byte buffer; Tunnel.hostInfo through requestConn for UDP/TCP/other sockets with and without SendLocalAddress; 2 (thorough 3) goroutines sending different frames through one TunnelSocket whose Write is a scheduling point",
+		Outside:  "50-frame streams (the receiver keeps no state between frames other than bufio's buffer); more than 3 cut points at once; more than 2 (thorough 3) concurrent senders; Close racing with a blocked 'inbound <-' (the receiver goroutine then stays blocked until the application reads: not decided here); kernel sockets, Dial*/Listen*, address parsing inside HostInfoFromAddress (redirected to an environment function)",
 		Assume:   []string{"(*net.TCPConn).Read / (*net.UDPConn).ReadFromUDP are engine stubs obeying the io.Reader contract with nondeterministic segment sizes"},
 	})
 	c20 := func(maxK int64) []Inst {
 		var out []Inst
 		for k := int64(0); k <= maxK; k++ {
 			out = append(out, Inst{Pkg: "knx", Fn: "HarnessC20Describe", Args: []int64{k}}, Inst{Pkg: "knx", Fn: "HarnessC20Discover", Args: []int64{k}})
+		}
+		// "malformed frames first": the UDP receiver behind both calls keeps delivering after a bad datagram
+		for _, L := range []int64{6, 8, 10} {
+			out = append(out, Inst{Pkg: "knxnet", Fn: "HarnessC16UDP", Args: []int64{1, 3, L}, Note: "UDP receiver: arbitrary datagram first"})
 		}
 		return out
 	}
